@@ -6,6 +6,9 @@ open OdlModel OdlModel.Partition
 (one row of coordinates per axis).  Answers: `ok …` or `err` (the code raises). -/
 
 def tolNp : Tol := Tol.numpy
+def rtolBdry : Rat := 1 / 100000
+def epsF : Rat := 1 / 4503599627370496
+def uniTolOf (p : Part1) : Tol := p.uniTol epsF (1 / 100000)
 def epsNp : Rat := 1 / 100000
 
 def mkPart (c : List (List Rat)) (lo hi : List Rat) : Option Part :=
@@ -45,24 +48,26 @@ def OdlModel.Line.oints? (l : Line) (k : String) : Option (List (Option Int)) :=
 def parseBit (c : Char) : Option Bool :=
   if c = '1' then some true else if c = '0' then some false else none
 
-def parsePair (s : String) : Option (Bool × Bool) :=
+def parseEntry (s : String) : Option FlagEntry :=
   match s.toList with
-  | [a] => do let x ← parseBit a; some (x, x)
-  | [a, b] => do let x ← parseBit a; let y ← parseBit b; some (x, y)
+  | [a] => do let x ← parseBit a; some (.b x)
+  | [a, b] => do let x ← parseBit a; let y ← parseBit b; some (.pair x y)
   | _ => none
 
-/-- `g1` global, `f10` flat 1-d pair, `a:11,0,10` per axis (single bit = both sides). -/
+/-- `g1` = `True`; `f10` = the sequence `(True, False)`; `a:11,0,10` = the sequence
+`[(True, True), False, (True, False)]` (one bit = a bare bool entry). -/
 def parseFlags (s : String) : Option Flags :=
   match s.toList with
   | ['g', b] => (parseBit b).map Flags.global
-  | ['f', a, b] => do let x ← parseBit a; let y ← parseBit b; some (Flags.flat x y)
-  | 'a' :: ':' :: rest => (parseList parsePair (String.ofList rest)).map Flags.perAxis
+  | ['f', a, b] => do let x ← parseBit a; let y ← parseBit b; some (Flags.seq [.b x, .b y])
+  | 'a' :: ':' :: rest => (parseList parseEntry (String.ofList rest)).map Flags.seq
   | _ => none
 
 def parseIdx (s : String) : Option Idx :=
   if s = "e" then some .ellipsis
   else match s.splitOn "_" with
     | ["i", k] => k.toInt?.map Idx.int
+    | ["l", body] => (parseList String.toInt? ((body.replace "." ","))).map Idx.list
     | ["s", a, b, c] => do
         let a ← parseOptInt a; let b ← parseOptInt b; let c ← parseOptInt c
         some (.slice a b c)
@@ -73,9 +78,9 @@ def doProps (l : Line) : Option String := do
   let bd := P.map fun p => (List.range (p.n + 1)).map p.bdry
   let sz := P.map fun p => (List.range p.n).map p.cellSize
   let fr := P.map fun p => [p.bdryFrac.1, p.bdryFrac.2]
-  let nob := P.map fun p => bit (p.nodesOnBdry tolNp).1 ++ bit (p.nodesOnBdry tolNp).2
-  let uni := P.map fun p => bit (p.isUniform tolNp)
-  let sides := P.map fun p => match p.cellSide tolNp with
+  let nob := P.map fun p => bit (p.nodesOnBdry rtolBdry).1 ++ bit (p.nodesOnBdry rtolBdry).2
+  let uni := P.map fun p => bit (p.isUniform (uniTolOf p))
+  let sides := P.map fun p => match p.cellSide (uniTolOf p) with
     | some s => showRat s
     | none => "nan"
   some (s!"ok bdry={showRatMat bd} sizes={showRatMat sz} frac={showRatMat fr} " ++
@@ -107,18 +112,18 @@ def doInsert (l : Line) (isAppend : Bool) : Option String := do
   let P ← l.vpart?
   let k ← l.nat? "k"
   let parts ← (List.range k).mapM fun j => l.vpart? (toString (j + 1))
-  if isAppend then some (showRes (append P parts))
+  if isAppend then some (showRes (append2 P parts))
   else
     let at_ ← l.int? "at"
-    some (showRes (insert P at_ parts))
+    some (showRes (insert2 P at_ parts))
 
 def doSqueeze (l : Line) : Option String := do
   let P ← l.vpart?
   let a ← l.get? "ax"
-  if a = "N" then some (showRes (squeeze P none))
+  if a = "N" then some (showRes (squeeze2 P none))
   else
     let ax ← parseIntList a
-    some (showRes (squeeze P (some ax)))
+    some (showRes (squeeze2 P (some ax)))
 
 def doByaxis (l : Line) : Option String := do
   let P ← l.vpart?
@@ -131,6 +136,7 @@ def doByaxis (l : Line) : Option String := do
     | .int k => some (showRes (byaxisInt P k))
     | .slice a b c => some (showRes (byaxisSlice P a b c))
     | .ellipsis => none
+    | .list _ => none
 
 def doUniform (l : Line) : Option String := do
   let xmin ← l.orats? "min"
